@@ -162,11 +162,12 @@ func txQueue(tptx gtypes.Tx, apptxQ [][]appTx, i, j int) error {
 		}
 	}
 
-	atomic.StoreInt32(&cur.status, appTxStatusInit)
-	verifhook.Gate("evm.txQueue.afterInit")
+	// everything the executor reads must be in place before the status is published
 	if j == 0 {
 		apptxQ[i][j].oribys = tptx
 	}
+	atomic.StoreInt32(&cur.status, appTxStatusInit)
+	verifhook.Gate("evm.txQueue.afterInit")
 	j++
 	return nil
 }
